@@ -1,3 +1,4 @@
 (* C01 -- locating a rendered emulsion returns each droplet once, with exact volume and half-cell centre.
-   Radial grids: Proofs/C01Radial.v.  Digital ball geometry: Proofs/Ball*.v.  Components: Proofs/LocateCart.v. *)
-From PD Require Export Proofs.C01Radial.
+   Radial grids: Proofs/C01Radial.v.  Digital ball geometry: Proofs/Ball*.v.  Components: Proofs/LocateCart.v.
+   Cartesian assembly: Proofs/C01Cart.v. *)
+From PD Require Export Proofs.C01Radial Proofs.C01Cart.
